@@ -478,7 +478,15 @@ def oracle_ignore_delta(base: dict, var: dict, annots: dict[int, list[str]]) -> 
     kept0 = [k for k in k0 if k in s1]
     kept1 = [k for k in k1 if k in s0]
     if not probs and kept0 != kept1 and sorted(kept0) == sorted(kept1):
-        probs.append({"kind": "order-changed", "tuple": None, "only_once": False, "text": "surviving diagnostics changed their order"})
+        nolink0 = [k for k in kept0 if '["sl",' not in k]
+        nolink1 = [k for k in kept1 if '["sl",' not in k]
+        if nolink0 == nolink1:
+            # only the priority-20 `See …#code-X` note of --show-error-code-links sits elsewhere among the notes of
+            # its error: the inserted "not covered" note (code None) splits the run `sort_within_context` orders by priority
+            probs.append({"kind": "link-note-reordered", "tuple": None, "only_once": False,
+                          "text": "the error-code-link note changed its place among the notes of its error"})
+        else:
+            probs.append({"kind": "order-changed", "tuple": None, "only_once": False, "text": "surviving diagnostics changed their order"})
     return probs
 
 
